@@ -366,6 +366,17 @@ func c15TempFile() string {
 	return filepath.Join(dir, fmt.Sprintf("c15-%d.json", os.Getpid()))
 }
 
+// c15Longer is a value whose every serialisation is longer than x's: it is written to a path first, so
+// that the write of x that follows lands on a file that already holds a longer document (a Write that
+// does not truncate leaves the old tail behind).
+func c15Longer(x poly.Sequence) poly.Sequence {
+	l := x
+	l.Sequence = x.Sequence + strings.Repeat("ACGT", 1500)
+	l.Description = x.Description + strings.Repeat("previous content ", 300)
+	l.Meta.Name = x.Meta.Name + "previous"
+	return l
+}
+
 func init() {
 	runner.Register("c15rt", func(a []string) ([]string, error) {
 		xp, err := c15Uncanon(a[0])
@@ -384,6 +395,7 @@ func init() {
 		}
 		path := c15TempFile()
 		defer os.Remove(path)
+		polyjson.Write(c15Longer(x), path) // history on one path: a longer document first
 		polyjson.Write(x, path)
 		ftext, err := os.ReadFile(path)
 		if err != nil {
@@ -415,15 +427,17 @@ func init() {
 	// about JSON; anything that fails after that is.  Reply fields:
 	//   parse status, canon(p), Build(p), json.Marshal(p), canon(polyjson.Parse(json)), Build(that),
 	//   GetSequence of p's features, of the parsed features, Build(polyjson.Read(polyjson.Write(p))),
-	//   Build(json.Unmarshal(json.MarshalIndent(p)))           — failed steps read "!panic" / "!err"
+	//   Build(json.Unmarshal(json.MarshalIndent(p))), the file left by the format's Write on a used path
+	//                                                          — failed steps read "!panic" / "!err"
 	runner.Register("c15conv", func(a []string) ([]string, error) {
 		var parse func([]byte) poly.Sequence
 		var build func(poly.Sequence) []byte
+		var write func(poly.Sequence, string)
 		switch a[0] {
 		case "gbk":
-			parse, build = genbank.Parse, genbank.Build
+			parse, build, write = genbank.Parse, genbank.Build, genbank.Write
 		case "gff":
-			parse, build = gff.Parse, gff.Build
+			parse, build, write = gff.Parse, gff.Build, gff.Write
 		default:
 			return nil, fmt.Errorf("format %q", a[0])
 		}
@@ -469,8 +483,18 @@ func init() {
 		viaFile := step(func() (string, error) {
 			path := c15TempFile()
 			defer os.Remove(path)
+			polyjson.Write(c15Longer(p), path) // history on one path: a longer document first
 			polyjson.Write(p, path)
 			return c15Text(build(polyjson.Read(path))), nil
+		})
+		// the format's own Write on a path that already holds a longer file: the file must be Build(p)
+		viaWrite := step(func() (string, error) {
+			path := c15TempFile()
+			defer os.Remove(path)
+			write(c15Longer(p), path)
+			write(p, path)
+			b, err := os.ReadFile(path)
+			return c15Text(b), err
 		})
 		viaPipe := step(func() (string, error) {
 			itext, err := json.MarshalIndent(p, "", " ")
@@ -483,6 +507,6 @@ func init() {
 			}
 			return c15Text(build(piped)), nil
 		})
-		return []string{"ok", cp, direct, js, crt, via, gsp, gsrt, viaFile, viaPipe}, nil
+		return []string{"ok", cp, direct, js, crt, via, gsp, gsrt, viaFile, viaPipe, viaWrite}, nil
 	})
 }
